@@ -1,7 +1,7 @@
 import PwVerif.Model.Cache
 namespace PwVerif.Cache
 
-/-! ## proposed discipline (`Cfg.proposed`): every history over the full alphabet -/
+/-! ## the cache records a processed result (`Cfg.commit k`, both settings of `k`): every history over the full alphabet -/
 
 /-- the twins agree on everything visible and on the job queue; a cached input vouches for the outputs
 (no condition on the flags: the cache is only ever written when a result has been processed) -/
@@ -17,10 +17,10 @@ structure Sim (beh : Nat → Outcome) (a b : N) : Prop where
 /-- the cached twin would answer from the cache now -/
 def N.hits (n : N) : Bool := n.cached == some n.inp && (!n.running && n.ready)
 
-theorem runLike_sim (beh : Nat → Outcome) (a b : N) (e : Bool) (h : Sim beh a b)
+theorem runLike_sim (k : Bool) (beh : Nat → Outcome) (a b : N) (e : Bool) (h : Sim beh a b)
     (hmiss : e = true → a.hits = false) :
-    Sim beh (runLike Cfg.proposed beh true a e).1 (runLike Cfg.proposed beh false b e).1 ∧
-    (runLike Cfg.proposed beh true a e).2 = (runLike Cfg.proposed beh false b e).2 := by
+    Sim beh (runLike (Cfg.commit k) beh true a e).1 (runLike (Cfg.commit k) beh false b e).1 ∧
+    (runLike (Cfg.commit k) beh true a e).2 = (runLike (Cfg.commit k) beh false b e).2 := by
   obtain ⟨hi, ho, hr, hf, hj, hnz, hv⟩ := h
   obtain ⟨ai, ao, ar, af, ac, aj⟩ := a
   obtain ⟨bi, bo, br, bf, bc, bj⟩ := b
@@ -28,18 +28,18 @@ theorem runLike_sim (beh : Nat → Outcome) (a b : N) (e : Bool) (h : Sim beh a 
   subst hi ho hr hf hj
   simp only [N.hits, N.ready] at hmiss
   by_cases hz : ai = 0 <;> cases ar <;> cases af <;> cases e <;> cases hb : beh ai <;> cases ac <;>
-    simp_all [runLike, Cfg.proposed, N.ready, N.succeed, N.fail] <;>
+    simp_all [runLike, Cfg.commit, N.ready, N.succeed, N.fail] <;>
     (try split) <;>
     (try (first | refine ⟨⟨?_, ?_, ?_, ?_, ?_, ?_, ?_⟩, ?_⟩ | refine ⟨?_, ?_, ?_, ?_, ?_, ?_, ?_⟩)) <;>
     (try simp_all) <;> (try grind)
 
-theorem step_sim (beh : Nat → Outcome) (a b : N) (op : Op) (h : Sim beh a b)
+theorem step_sim (k : Bool) (beh : Nat → Outcome) (a b : N) (op : Op) (h : Sim beh a b)
     (hmiss : op = .submit → a.hits = false) :
-    Sim beh (step Cfg.proposed beh true a op).1 (step Cfg.proposed beh false b op).1 ∧
-    (step Cfg.proposed beh true a op).2 = (step Cfg.proposed beh false b op).2 := by
+    Sim beh (step (Cfg.commit k) beh true a op).1 (step (Cfg.commit k) beh false b op).1 ∧
+    (step (Cfg.commit k) beh true a op).2 = (step (Cfg.commit k) beh false b op).2 := by
   cases op with
-  | run => exact runLike_sim beh a b false h (by simp)
-  | submit => exact runLike_sim beh a b true h (fun _ => hmiss rfl)
+  | run => exact runLike_sim k beh a b false h (by simp)
+  | submit => exact runLike_sim k beh a b true h (fun _ => hmiss rfl)
   | _ =>
     obtain ⟨hi, ho, hr, hf, hj, hnz, hv⟩ := h
     obtain ⟨ai, ao, ar, af, ac, aj⟩ := a
@@ -52,7 +52,7 @@ theorem step_sim (beh : Nat → Outcome) (a b : N) (op : Op) (h : Sim beh a b)
       | (cases aj with
          | nil => simp_all [step]; refine ⟨?_, ?_, ?_, ?_, ?_, ?_, ?_⟩ <;> simp_all
          | cons v js =>
-           cases hb : beh v <;> simp_all [step, Cfg.proposed, N.succeed, N.fail] <;>
+           cases k <;> cases hb : beh v <;> simp_all [step, Cfg.commit, N.succeed, N.fail] <;>
              (try (refine ⟨?_, ?_, ?_, ?_, ?_, ?_, ?_⟩)) <;> (try simp_all) <;> (try grind)))
 
 theorem init_sim (beh : Nat → Outcome) : Sim beh N.init N.init := by
@@ -80,24 +80,24 @@ theorem NoSubmitHit.cons {cfg beh a o os} (h : NoSubmitHit cfg beh a (o :: os)) 
 
 /-- for EVERY such history the cached node and its uncached twin return the same things and end in
 the same visible state -/
-theorem runOps_sim (beh : Nat → Outcome) (ops : List Op) (a b : N) (h : Sim beh a b)
-    (hok : NoSubmitHit Cfg.proposed beh a ops) :
-    (runOps Cfg.proposed beh true a ops).2 = (runOps Cfg.proposed beh false b ops).2 ∧
-    Sim beh (runOps Cfg.proposed beh true a ops).1 (runOps Cfg.proposed beh false b ops).1 := by
+theorem runOps_sim (k : Bool) (beh : Nat → Outcome) (ops : List Op) (a b : N) (h : Sim beh a b)
+    (hok : NoSubmitHit (Cfg.commit k) beh a ops) :
+    (runOps (Cfg.commit k) beh true a ops).2 = (runOps (Cfg.commit k) beh false b ops).2 ∧
+    Sim beh (runOps (Cfg.commit k) beh true a ops).1 (runOps (Cfg.commit k) beh false b ops).1 := by
   induction ops generalizing a b with
   | nil => exact ⟨rfl, h⟩
   | cons o os ih =>
-    obtain ⟨hs, hr⟩ := step_sim beh a b o h hok.cons.1
+    obtain ⟨hs, hr⟩ := step_sim k beh a b o h hok.cons.1
     obtain ⟨ih1, ih2⟩ := ih _ _ hs hok.cons.2
     simp only [runOps]
     exact ⟨by rw [hr, ih1], ih2⟩
 
 /-- a `submit` answered from the cache equals, on the uncached twin, the submission followed by the
 completion of that job (when nothing else is queued): same outputs, same visible state -/
-theorem submit_hit_settles (beh : Nat → Outcome) (a b : N) (h : Sim beh a b) (hhit : a.hits = true)
+theorem submit_hit_settles (k : Bool) (beh : Nat → Outcome) (a b : N) (h : Sim beh a b) (hhit : a.hits = true)
     (hq : a.jobs = []) :
-    let a' := (step Cfg.proposed beh true a .submit)
-    let b' := (step Cfg.proposed beh false (step Cfg.proposed beh false b .submit).1 .complete).1
+    let a' := (step (Cfg.commit k) beh true a .submit)
+    let b' := (step (Cfg.commit k) beh false (step (Cfg.commit k) beh false b .submit).1 .complete).1
     Sim beh a'.1 b' ∧ a'.2 = .ret b'.out := by
   obtain ⟨hi, ho, hr, hf, hj, hnz, hv⟩ := h
   obtain ⟨ai, ao, ar, af, ac, aj⟩ := a
@@ -110,7 +110,7 @@ theorem submit_hit_settles (beh : Nat → Outcome) (a b : N) (h : Sim beh a b) (
   | some c =>
     obtain ⟨h1, h2, h3⟩ := hv c rfl
     cases ar <;> cases af <;>
-      simp_all [step, runLike, Cfg.proposed, N.ready, N.succeed, N.fail] <;>
+      simp_all [step, runLike, Cfg.commit, N.ready, N.succeed, N.fail] <;>
       (try (refine ⟨?_, ?_, ?_, ?_, ?_, ?_, ?_⟩)) <;> (try simp_all) <;> (try grind)
 
 /-! ## the tree as it is (`Cfg.repaired`): histories without a manual reset / a lost job, functions
